@@ -408,13 +408,12 @@ def c20_reject(rng, tier):
     out = []
 
     def expect(exc, fn, what, **case):
+        # the property asks for *an error instead of numbers*; `exc` is the kind the current code raises (reported, not required)
         try:
             with quiet():
                 r = fn()
-        except exc:
+        except Exception:
             return
-        except Exception as ex:
-            out.append(_fail(what + ": raised %s instead of %s" % (type(ex).__name__, exc.__name__), type(ex).__name__, exc.__name__, **case)); return
         out.append(_fail(what + ": accepted, numbers were produced", "no error", exc.__name__, **case))
     num_y = int(rng.choice([2, 4, 6, 8, 10, 20]))
     expect(ValueError, lambda: generate_mesh(dict(num_x=2, num_y=num_y, wing_type=str(rng.choice(["rect", "CRM"])), symmetry=bool(rng.integers(2)))),
@@ -439,11 +438,20 @@ def c20_reject(rng, tier):
                 p = om.Problem(reports=False); p.model.add_subsystem("w", grp(surface=s)); p.setup(); p.run_model()
             expect(NameError, build2, "only %s given for a wingbox in %s" % (key, grp.__name__), group=grp.__name__, key=key)
     num = int(rng.integers(2, 4))
-    for bad in ("ny", "taper", "span", "sweep", "sec_name"):
-        surface = dict(name="surface", num_sections=num, sec_name=["s%d" % i for i in range(num)], symmetry=True, taper=[1.0] * num,
-                       span=[1.0] * num, sweep=[0.0] * num, root_chord=1.0, nx=2, ny=[3] * num, meshes="gen-meshes")
-        surface[bad] = surface[bad][:-1] if rng.integers(2) else surface[bad] + [surface[bad][0]]
-        expect(ValueError, lambda surface=surface: build_sections(surface), "multi-section list %s of the wrong length" % bad, key=bad, num_sections=num)
+    for genm in (True, False):
+        for bad in (("ny", "taper", "span", "sweep", "sec_name") if genm else ("meshes", "taper", "span", "sweep", "sec_name")):
+            surface = dict(name="surface", num_sections=num, sec_name=["s%d" % i for i in range(num)], symmetry=True, taper=[1.0] * num,
+                           span=[1.0] * num, sweep=[0.0] * num, root_chord=1.0, nx=2, ny=[3] * num,
+                           meshes="gen-meshes" if genm else [gen.rand_mesh(rng, 2, 3, True) for _ in range(num)])
+            shorter = bool(rng.integers(2))
+            surface[bad] = surface[bad][:-1] if shorter else surface[bad] + [surface[bad][0]]
+            fnd = {} if genm or bad in ("meshes", "sec_name") else dict(finding="F13")
+            n0 = len(out)
+            expect(ValueError, lambda surface=surface: build_sections(surface),
+                   "multi-section list %s of the wrong length (%s, %s meshes)" % (bad, "too short" if shorter else "too long", "generated" if genm else "user-provided"),
+                   key=bad, num_sections=num, gen_meshes=genm, shorter=shorter)
+            for f in out[n0:]:
+                f.update(fnd)
     # unknown key -> warning, documented keys -> no warning
     s = pipelines.struct_surface("w", mesh, True)
     with warnings.catch_warnings(record=True) as w:
